@@ -141,7 +141,11 @@ func (h *History) clone() *History {
 	return d
 }
 
-// ---- the classes of the open findings, as Go classifiers (Lean: Spec.F11, Spec.F10b) ----
+// ---- classifiers (Lean: Spec.F10b, Spec.F11) ----
+//
+// F10b is the class of the open finding. F11 was the class of a finding repaired by 093fa53 (services
+// with different root paths that want the same ServeMux pattern): it excuses nothing any more; the
+// check measures how often the histories visit it, so that a regression there cannot go unnoticed.
 
 // FixedPrefix is the part of a root path before the first "{".
 func FixedPrefix(root string) string {
@@ -156,7 +160,7 @@ func IsRootPattern(root string) bool {
 	return p == "/" || p == ""
 }
 
-// RegPatterns are the ServeMux patterns a service with this (normalised) root registers.
+// RegPatterns are the ServeMux patterns a service with this (normalised) root wants.
 func RegPatterns(root string) []string {
 	p := FixedPrefix(root)
 	if IsRootPattern(root) {
@@ -168,7 +172,8 @@ func RegPatterns(root string) []string {
 	return []string{p, p + "/"}
 }
 
-// PatsFrom lists the patterns registered for services added in this order on a new mux.
+// PatsFrom lists the patterns wanted by services added in this order on a new mux (a pattern
+// wanted by two services occurs twice; nothing is wanted after a service landed on "/").
 func PatsFrom(roots []string) []string {
 	var out []string
 	for _, r := range roots {
@@ -180,7 +185,7 @@ func PatsFrom(roots []string) []string {
 	return out
 }
 
-// PrefixesCollide is the class of F11: two services register the same pattern.
+// PrefixesCollide is the class of the repaired finding F11: two services want the same pattern.
 func PrefixesCollide(roots []string) bool {
 	seen := map[string]bool{}
 	for _, p := range PatsFrom(roots) {
